@@ -259,7 +259,7 @@ def split_log(lines):
     return hooks, body
 
 
-def execute(job, logpath, seconds=120):
+def execute(job, logpath, seconds=120, keep_result=False):
     """what `pydra.engine.job.load_and_run` does with a loaded job (`submitter.submit` for asynchronously run workflows,
     `job.run()` otherwise) + observation.  -> JSON dict"""
     from vt import wfprog as WP
@@ -287,6 +287,8 @@ def execute(job, logpath, seconds=120):
     os.chdir(cwd)
     out["argv"] = rec
     out["hooks"], out["log"] = split_log(tasks.read_log())
+    if keep_result:
+        out["_res"] = res if res not in (None, "async") else None
     try:
         if res == "async":
             res = job.result()
